@@ -531,4 +531,198 @@ theorem saturateCast_eq (To From : ITy) (hTo : 1 ≤ To.w) (hFrom : 1 ≤ From.w
     · simp only [h1, h2, decide_false, Bool.false_eq_true, if_false]
       rw [conv_of_inR To hTo x (by rw [inR_iff]; omega)]
 
+/-! ## popcount and the leading-zero family -/
+
+theorem pc_succ (w x : Nat) : Spec.popcount (w + 1) x = x % 2 + Spec.popcount w (x / 2) := by
+  unfold Spec.popcount
+  rw [List.range_succ_eq_map, List.filter_cons, List.filter_map]
+  have h1 : ((fun i => x.testBit i) ∘ Nat.succ) = (fun i => (x / 2).testBit i) := by
+    funext i; simp [Nat.testBit_succ]
+  rw [h1]
+  have hx : x % 2 = 0 ∨ x % 2 = 1 := by omega
+  rcases hx with h | h <;> simp [Nat.testBit_zero, h] <;> omega
+
+theorem pc_zero (w : Nat) : Spec.popcount w 0 = 0 := by
+  unfold Spec.popcount; simp
+
+/-- `v & (v - 1)` clears exactly one 1 bit -/
+theorem pc_clear_lowest (w : Nat) : ∀ v, 0 < v → v < 2^w →
+    Spec.popcount w (v &&& (v - 1)) + 1 = Spec.popcount w v := by
+  induction w with
+  | zero => intro v h0 h1; simp at h1; omega
+  | succ w ih =>
+    intro v h0 h1
+    rw [pc_succ, pc_succ, Nat.and_div_two]
+    have hm : (v &&& (v - 1)) % 2 = (v % 2) &&& ((v - 1) % 2) := by
+      have := @Nat.and_mod_two_pow v (v - 1) 1; simpa using this
+    have hx : v % 2 = 0 ∨ v % 2 = 1 := by omega
+    rcases hx with h | h
+    · -- even: recurse on v / 2
+      have h1' : (v - 1) / 2 = v / 2 - 1 := by omega
+      have hv2 : 0 < v / 2 := by omega
+      have hlt : v / 2 < 2^w := by rw [Nat.pow_succ] at h1; omega
+      rw [hm, h, Nat.zero_and, h1', ← ih (v / 2) hv2 hlt]; omega
+    · have h1' : (v - 1) / 2 = v / 2 := by omega
+      have h2 : (v - 1) % 2 = 0 := by omega
+      rw [hm, h, h2, h1', Nat.and_self]; simp; omega
+
+theorem popLoop_eq (w : Nat) : ∀ val c, val < 2^w → popLoop val c = c + Spec.popcount w val := by
+  intro val
+  induction val using Nat.strongRecOn with
+  | _ val ih =>
+    intro c hlt
+    unfold popLoop
+    by_cases h0 : val = 0
+    · simp [h0, pc_zero]
+    · simp only [h0, dite_false]
+      have hle := @Nat.and_le_right val (val - 1)
+      rw [ih (val &&& (val - 1)) (by omega) (c + 1) (by omega)]
+      have := pc_clear_lowest w val (by omega) hlt
+      omega
+
+/-! ### countl_zero, bit_width, bit_floor, bit_ceil -/
+
+theorem and_two_pow_eq_zero (x k : Nat) : x &&& 2^k = 0 ↔ x.testBit k = false := by
+  constructor
+  · intro h
+    have := Nat.testBit_and x (2^k) k
+    rw [h] at this; simpa [Nat.testBit_two_pow_self] using this.symm
+  · intro h
+    apply Nat.eq_of_testBit_eq
+    intro i
+    rw [Nat.testBit_and, Nat.testBit_two_pow]
+    by_cases hi : k = i
+    · subst hi; simp [h]
+    · simp [hi]
+
+theorem testBit_top (w x : Nat) (hw : 1 ≤ w) (hx : x < 2^w) : x.testBit (w - 1) = decide (2^(w-1) ≤ x) := by
+  rw [Nat.testBit_eq_decide_div_mod_eq]
+  have hsplit : 2^w = 2 * 2^(w-1) := by
+    obtain ⟨k, rfl⟩ : ∃ k, w = k+1 := ⟨w-1, by omega⟩
+    rw [Nat.pow_succ]; simp; omega
+  have hpos : 0 < 2^(w-1) := Nat.pow_pos (by decide)
+  have hq : x / 2^(w-1) < 2 := by
+    apply Nat.div_lt_of_lt_mul; omega
+  by_cases h : 2^(w-1) ≤ x
+  · have : 1 ≤ x / 2^(w-1) := (Nat.le_div_iff_mul_le hpos).2 (by omega)
+    simp [h]; omega
+  · have : x / 2^(w-1) = 0 := Nat.div_eq_of_lt (by omega)
+    simp [h, this]
+
+theorem top_clear (w x : Nat) (hw : 1 ≤ w) (hx : x < 2^w) : (x &&& topMask w == 0) = decide (x < 2^(w-1)) := by
+  unfold topMask
+  rw [Nat.shiftLeft_eq, Nat.one_mul]
+  by_cases h : x < 2^(w-1)
+  · have : x &&& 2^(w-1) = 0 := (and_two_pow_eq_zero x (w-1)).2 (by rw [testBit_top w x hw hx]; simp; omega)
+    simp [this, h]
+  · have : ¬ (x &&& 2^(w-1) = 0) := by
+      rw [and_two_pow_eq_zero, testBit_top w x hw hx]; simp; omega
+    simp [this, h]
+
+theorem bw_le (x k : Nat) : Spec.bitWidth x ≤ k ↔ x < 2^k := by
+  unfold Spec.bitWidth
+  by_cases h : x = 0
+  · subst h; simp; exact Nat.pow_pos (by decide)
+  · simp only [h, if_false]
+    rw [← Nat.log2_lt h]; omega
+
+theorem bw_two_mul (x : Nat) (h : x ≠ 0) : Spec.bitWidth (2 * x) = Spec.bitWidth x + 1 := by
+  unfold Spec.bitWidth
+  have : 2 * x ≠ 0 := by omega
+  simp only [h, this, if_false, Nat.log2_two_mul h]
+
+theorem clzLoop_eq (w : Nat) (hw : 1 ≤ w) : ∀ f x res, 0 < x → x < 2^w → w - Spec.bitWidth x < f →
+    clzLoop w f x res = .ok (res + (w - Spec.bitWidth x)) := by
+  have hsplit : 2^w = 2 * 2^(w-1) := by
+    obtain ⟨k, rfl⟩ : ∃ k, w = k+1 := ⟨w-1, by omega⟩
+    rw [Nat.pow_succ]; simp; omega
+  intro f
+  induction f with
+  | zero => intro x res _ _ h; omega
+  | succ f ih =>
+    intro x res h0 hx hf
+    unfold clzLoop
+    rw [top_clear w x hw hx]
+    have hbw := (bw_le x w).2 hx
+    by_cases h : x < 2^(w-1)
+    · simp only [h, decide_true, if_true]
+      have h2x : (x <<< 1) % 2^w = 2 * x := by
+        rw [Nat.shiftLeft_eq]; simp; rw [Nat.mod_eq_of_lt (by omega)]; omega
+      have hb1 := (bw_le x (w-1)).2 h
+      have hb2 := bw_two_mul x (by omega)
+      rw [h2x, ih (2 * x) (res + 1) (by omega) (by omega) (by omega), hb2]
+      congr 1; omega
+    · simp only [h, decide_false, Bool.false_eq_true, if_false]
+      have : ¬ Spec.bitWidth x ≤ w - 1 := by rw [bw_le]; exact h
+      congr 1; omega
+
+theorem countlZero_eq (w x : Nat) (hw : 1 ≤ w) (hx : x < 2^w) :
+    countlZero w x = .ok (Spec.countlZero w x) := by
+  unfold countlZero Spec.countlZero
+  by_cases h : x = 0
+  · subst h; simp [Spec.bitWidth]
+  · simp only [beq_iff_eq, h, if_false]
+    rw [clzLoop_eq w hw w x 0 (by omega) hx]
+    · simp
+    · have : 1 ≤ Spec.bitWidth x := by unfold Spec.bitWidth; simp [h]
+      omega
+
+theorem bitWidth_eq (w x : Nat) (hw : 1 ≤ w) (hx : x < 2^w) : bitWidth w x = .ok (Spec.bitWidth x) := by
+  unfold bitWidth
+  rw [countlZero_eq w x hw hx]
+  have := (bw_le x w).2 hx
+  simp only [ok_bind, Spec.countlZero]
+  congr 1; omega
+
+theorem pw_ge (w : Nat) : w ≤ pw w := by unfold pw; split <;> omega
+
+theorem bitFloor_eq (w x : Nat) (hw : 1 ≤ w) (hx : x < 2^w) : bitFloor w x = .ok (Spec.bitFloor x) := by
+  unfold bitFloor Spec.bitFloor
+  by_cases h : x = 0
+  · simp [h]
+  · simp only [bne_iff_ne, ne_eq, h, not_false_eq_true, if_true, if_false]
+    rw [bitWidth_eq w x hw hx]
+    simp only [ok_bind]
+    have hbw := (bw_le x w).2 hx
+    have hb1 : Spec.bitWidth x = Nat.log2 x + 1 := by unfold Spec.bitWidth; simp [h]
+    have hlt : Spec.bitWidth x < 2^w := Nat.lt_of_le_of_lt hbw Nat.lt_two_pow_self
+    have hsh : (ITy.conv ⟨w, false⟩ (((Spec.bitWidth x % 2^w : Nat) : Int) - 1)).toNat = Nat.log2 x := by
+      rw [convU, Nat.mod_eq_of_lt hlt]
+      have hc : ((2:Nat)^w : Int) = (2:Int)^w := by simp
+      rw [Int.emod_eq_of_lt (by omega) (by rw [← hc]; omega)]; omega
+    rw [hsh]
+    have hpw := pw_ge w
+    have hl : Nat.log2 x < w := by omega
+    simp only [show Nat.log2 x < pw w by omega, if_true]
+    rw [Nat.shiftLeft_eq, Nat.one_mul, Nat.mod_eq_of_lt (Nat.pow_lt_pow_right (by decide) hl)]
+
+/-- documented domain of `bit_ceil`: the result `2^k >= x` must be representable -/
+theorem bitCeil_eq (w x : Nat) (hw : 1 ≤ w) (hx : x ≤ 2^(w-1)) : bitCeil w x = .ok (Spec.bitCeil x) := by
+  have hsplit : 2^w = 2 * 2^(w-1) := by
+    obtain ⟨k, rfl⟩ : ∃ k, w = k+1 := ⟨w-1, by omega⟩
+    rw [Nat.pow_succ]; simp; omega
+  have hpos : 0 < 2^(w-1) := Nat.pow_pos (by decide)
+  unfold bitCeil Spec.bitCeil
+  by_cases h : x ≤ 1
+  · simp [h]
+  · simp only [h, if_false]
+    have hx1 : x - 1 < 2^w := by omega
+    rw [Nat.mod_eq_of_lt hx1, bitWidth_eq w (x - 1) hw hx1]
+    simp only [ok_bind]
+    have hne : x - 1 ≠ 0 := by omega
+    have hb1 : Spec.bitWidth (x - 1) = Nat.log2 (x - 1) + 1 := by unfold Spec.bitWidth; simp [hne]
+    have hb : Spec.bitWidth (x - 1) ≤ w - 1 := (bw_le (x - 1) (w - 1)).2 (by omega)
+    rw [← hb1]
+    generalize Spec.bitWidth (x - 1) = b at *
+    have hbw : b < w := by omega
+    by_cases hwide : w ≥ 32
+    · simp only [hwide, if_true, hbw]
+      rw [Nat.shiftLeft_eq, Nat.one_mul, Nat.mod_eq_of_lt (Nat.pow_lt_pow_right (by decide) hbw)]
+    · simp only [hwide, if_false]
+      have ho : b + (32 - w) < 32 := by omega
+      simp only [ho, if_true]
+      rw [Nat.shiftLeft_eq, Nat.one_mul, Nat.mod_eq_of_lt (Nat.pow_lt_pow_right (by decide) ho),
+        Nat.shiftRight_eq_div_pow, Nat.pow_add, Nat.mul_div_cancel _ (Nat.pow_pos (by decide)),
+        Nat.mod_eq_of_lt (Nat.pow_lt_pow_right (by decide) hbw)]
+
 end Tetl.C14
